@@ -212,9 +212,28 @@ pub struct StructTypes {
     /// Type name
     pub name: String,
     /// Struct attributes
+    #[cfg_attr(
+        feature = "codec",
+        serde(serialize_with = "serialize_attributes_in_index_order")
+    )]
     pub attributes: HashMap<ValueName, StructAttributeType>,
     /// Struct methods
     pub methods: HashMap<String, FunctionName>,
+}
+
+/// Serialize struct attributes ordered by attribute index, so that the
+/// serialized text does not depend on the `HashMap` iteration order.
+#[cfg(feature = "codec")]
+fn serialize_attributes_in_index_order<S>(
+    attributes: &HashMap<ValueName, StructAttributeType>,
+    serializer: S,
+) -> Result<S::Ok, S::Error>
+where
+    S: serde::Serializer,
+{
+    let mut entries: Vec<(&ValueName, &StructAttributeType)> = attributes.iter().collect();
+    entries.sort_by_key(|(_, attr)| attr.attr_index);
+    serializer.collect_map(entries)
 }
 
 impl TypeAttributes for StructTypes {
